@@ -90,6 +90,7 @@ static int spur_budget, pspur = 10, ptick = 5;
 static int sig_pending = 0;          /* signal waiting to be taken by sigwait */
 static struct { int signo; long at; int done; } sigs[16]; static int nsigs;
 static long idle_ticks;
+static long max_steps = 400000;   /* SCHED_MAXSTEP: a run that needs more is reported as STEPLIMIT (e.g. waiting for ever on a hung host with no command timeout) */
 
 static uint64_t rnd(void)
 {
@@ -298,6 +299,7 @@ static int schedule(void)
         {
             int a = next_choice(acts, n);
             step++;
+            if (step > max_steps) { tr("STEPLIMIT"); if (trace) fflush(trace); _exit(98); }
             if (a >= 0) { idle_ticks = 0; tr("RUN %d", a); return a; }
             if (a == -1) { vclock++; idle_ticks++; tr("TICK %ld", vclock); continue; }
             if (a <= -1000) {
@@ -609,6 +611,7 @@ int sim_connect(const char *host, const char *user, const char *cmd, int rank, i
     tr("CONNBEGIN %s h%d %s user %s rank %d inflight %d", who(self), hi, host, user ? user : "-", rank, inflight);
     __real_pthread_mutex_unlock(&G);
     yield_op(OP_CONNECT);
+    if (H[hi].connect != 'h') T[self].eintr = 0;   /* a signal handled while connect() completes is not seen later */
     if (H[hi].connect == 'o') {
         fd = VFD0 + 2 * hi;
         if (efd) { *efd = fd + 1; H[hi].sep = 1; }
@@ -660,6 +663,7 @@ int main(int argc, char **argv)
     spur_budget = (s = getenv("SCHED_SPUR")) ? atoi(s) : 0;
     if ((s = getenv("SCHED_PSPUR"))) pspur = atoi(s);
     if ((s = getenv("SCHED_PTICK"))) ptick = atoi(s);
+    if ((s = getenv("SCHED_MAXSTEP"))) max_steps = atol(s);
     if ((s = getenv("SCHED_SIGS"))) {
         char *dup = strdup(s), *save = NULL;
         for (char *p = strtok_r(dup, ",", &save); p && nsigs < 16; p = strtok_r(NULL, ",", &save)) {
